@@ -1175,11 +1175,10 @@ class RTCSctpTransport(AsyncIOEventEmitter):
                 self._advertised_rwnd += len(message[2])
                 await self._receive(*message)
 
-        # prune obsolete chunks
+        # prune obsolete chunks, i.e. those the peer gave up on, which does not
+        # include chunks received out of order beyond the forwarded TSN
         for stream_id, inbound_stream in self._inbound_streams.items():
-            self._advertised_rwnd += inbound_stream.prune_chunks(
-                self._last_received_tsn
-            )
+            self._advertised_rwnd += inbound_stream.prune_chunks(chunk.cumulative_tsn)
 
     async def _receive_sack_chunk(self, chunk: SackChunk) -> None:
         """
